@@ -22,6 +22,7 @@ import multiprocessing
 
 from harness.lib import (GEN, NCPU, Finding, PropertyCheck, TranslateError, VERIF, run_bool_cases)
 from harness.props import c02_prog as cp
+from harness.props import c02_src as cs
 from translate import astutil, tr_cache
 
 PINS = json.loads((VERIF / "translate" / "pins_C02.json").read_text())
@@ -106,6 +107,8 @@ def _run_case(case):
         old = signal.signal(signal.SIGALRM, _alarm)
         signal.alarm(HISTORY_TIMEOUT_S)
         try:
+            if case.get("kind") == "src":
+                return cs.run_src_history(case, wd)
             return cp.run_history_real(case, wd)
         except _Timeout:
             msg = f"the history did not finish within {HISTORY_TIMEOUT_S} s (twice) on the real scheduler (livelock?)"
@@ -185,7 +188,10 @@ class Check(PropertyCheck):
             "lazy calls, tuples, x[i], catch) with 1-3 ops between executions drawn from body edit / version bump / revert / "
             "input-file rewrite (fresh or earlier stamp) / new root expression; plus directed histories at the catch and x[i] sites and "
             "the 4 Coq witnesses; non-trivial = the history has at least one edit or rewrite and a later execution with a cache hit; "
-            "distinct by repr of (program, ops)")
+            "distinct by repr of (program, ops); plus source-level histories: tasks in real module files rewritten and re-imported "
+            "between executions, one family per cosmetic-looking but behaviour-changing edit (inside string literals with '#', "
+            "triple-quoted values, f-strings / format specs, whitespace, indentation, default arguments, nested helpers, lambdas, "
+            "hash_includes), each edit + revert and random variant sequences")
 
     # ------------------------------------------------------------------ translate
     def translate(self):
@@ -227,6 +233,12 @@ class Check(PropertyCheck):
         for i in range(n_rand):
             fam = cp.Family(self.rng)
             cases.append((f"random:{i}", fam.gen_history(self.rng.randrange(2, 7))))
+        # source-level edit histories (tasks defined in module files, rewritten and re-imported)
+        for f in cs.FAMILIES:
+            cases.append((f"src:{f['name']}:0", cs.gen_case(self.rng, f["name"], simple=True)))
+            for i in range(1, 2 if self.tier == "quick" else 6):
+                if len(f["variants"]) > 2:
+                    cases.append((f"src:{f['name']}:{i}", cs.gen_case(self.rng, f["name"])))
         t0 = time.time()
         # workers are spawned (no state, locks or threads inherited from this process) and make
         # their own migrated template database under a directory this process removes
@@ -241,7 +253,11 @@ class Check(PropertyCheck):
             shutil.rmtree(tmpl, ignore_errors=True)
         self.stat("timing", "real_runs_wall_s", int(time.time() - t0))
         self._cases = []
+        self._src_cases = []
         for (tag, case), real in zip(cases, reals):
+            if case.get("kind") == "src":
+                self._src_cases.append(dict(tag=tag, case=case, real=real))
+                continue
             pv, cc = self.variant
             mir = cp.mirror_hist(case["prog"], case["ops"], pv, cc)
             mfr = cp.mirror_hist(case["prog"], case["ops"], pv, cc, fresh=True)
@@ -367,10 +383,36 @@ class Check(PropertyCheck):
                     self.findings.append(Finding(k, what, {"kind": "history", "case": cp.to_json(case), "run": j,
                                                            "shared": repr(sh), "fresh": repr(fr)}))
                 break
+        # source-level edit histories: no model, no known finding applies here
+        nsrc = 0
+        for c in self._src_cases:
+            case, real = c["case"], c["real"]
+            detect = cs.BY_NAME[case["family"]]["detect"]
+            if isinstance(real, tuple) and real and real[0] == "crash":
+                if detect and len(crashes) < 3:
+                    crashes.append(Finding("unexplained:crash:" + c["tag"], f"history {c['tag']}: {real[1][:300]}",
+                                           {"kind": "srchistory", "case": case}))
+                continue
+            nsrc += len(real)
+            self.count(("src", case["family"], tuple(case["seq"])), n=len(real))
+            bad = cs.violations(case, real)
+            self.stat("source_edit_family", case["family"] + (":agrees" if not bad else ":stale" + ("" if detect else "(by design, not a finding)")))
+            if bad and detect:
+                nbad += 1
+                j, what = bad[0]
+                vs = [cs.BY_NAME[case["family"]]["variants"][i] for i in case["seq"]]
+                self.findings.append(Finding(
+                    f"unexplained:source-edit:{case['family']}",
+                    (f"source-level history {c['tag']} (task body variants {vs}, module file rewritten and re-imported between "
+                     f"executions): execution {j} {what}")[:700],
+                    {"kind": "srchistory", "case": case, "run": j, "source_at_failing_step": cs.source_of(case["family"], vs[j])}))
+        self.stat("oracle", "source_level_executions_compared", nsrc)
+        self.sample({"tag": "src", "families": [f["name"] for f in cs.FAMILIES]}, 5)
         self.findings += crashes          # after the concrete stale answers, so that those lead the replay file
         self.stat("oracle", "executions_compared", n)
         self.stat("oracle", "stale_executions", nbad)
-        self.ob("oracle", f"implementation oracle ran: {n} executions of {len(self.cases())} histories on a shared sqlite backend, each compared "
+        self.ob("oracle", f"implementation oracle ran: {n} executions of {len(self.cases())} generated histories + {nsrc} executions of {len(self._src_cases)} "
+                f"source-level edit histories on a shared sqlite backend, each compared "
                 f"with the same execution on an empty backend", True)
         # the Coq witnesses must behave on the real code as the extracted variant says
         pv, cc = self.variant
@@ -389,6 +431,18 @@ class Check(PropertyCheck):
     # ------------------------------------------------------------------ replay
     def replay(self, doc):
         r = doc.get("replay", {})
+        if r.get("kind") == "srchistory":
+            real = _run_case(r["case"])
+            cp.cleanup_template()
+            if isinstance(real, tuple) and real and real[0] == "crash":
+                print("replay: the history crashed:", real[1])
+                return 1
+            bad = cs.violations(r["case"], real)
+            for j, what in bad:
+                print(f"replay: execution {j} {what}")
+            if not bad:
+                print("replay: every execution of the source-level history now returns what an empty backend returns")
+            return 1 if bad else 0
         if r.get("kind") == "history":
             case = cp.from_json(r["case"])
             real = _run_case(case)
